@@ -57,6 +57,7 @@ def run(ctx):
             cases.append({'op': 'construct', 'lang': lg, 'f': f, 'style': 'obj'})
             if rnd.random() < 0.3:
                 cases.append({'op': 'construct', 'lang': lg, 'f': f, 'style': 'raw'})
+                cases.append({'op': 'construct', 'lang': lg, 'f': f, 'style': 'ops'})
             if f[0] not in ('ap', 'true', 'false'):
                 for sl in LANGN:
                     if sl != lg and rnd.random() < (0.35 if q else 1.0):
